@@ -19,7 +19,9 @@ def run(ctx):
 
     c = P.fn(STORE + 'create_continuity')
     ctx.touch(c)
-    aps = c.calls(APPEND)
+    from .c01 import logical_append_sites
+    # a private helper that forwards the frame to EventLog::append (and propagates its failure) counts as the append
+    aps = [x for x in logical_append_sites(P, [x for x in P.callers(APPEND) if x.fn.path.startswith(STORE)]) if x.fn is c]
     if len(aps) != 2:
         raise CheckError('C10.2: create_continuity is expected to append the creation frame and the optional lineage frame (found %d appends)' % len(aps))
     first = [x for x in aps if c.dom(x.bb, [y for y in aps if y is not x][0].bb)]
